@@ -29,7 +29,24 @@ class EntryInterp(Interp):
             return ("builtin", id_)
         return super().name(id_, env)
 
+    @staticmethod
+    def _path(v):
+        return Obj(_kind="path", _p=v)
+
+    def binop(self, op, a, b):
+        # pathlib: path / "name"
+        if isinstance(op, ast.Div) and isinstance(a, Obj) and getattr(a, "_kind", None) == "path":
+            bb = b._p if isinstance(b, Obj) and getattr(b, "_kind", None) == "path" else b
+            return self._path(lift(lambda x, y: x.rstrip("/") + "/" + y, a._p, bb))
+        return super().binop(op, a, b)
+
+    def to_str(self, x):
+        if isinstance(x, Obj) and getattr(x, "_kind", None) == "path":
+            return x._p
+        return super().to_str(x)
+
     def builtin(self, name, args, kwargs):
+        args = [a._p if isinstance(a, Obj) and getattr(a, "_kind", None) == "path" and name == "open" else a for a in args]
         if name == "open":
             self.log.append(("open", list(args), dict(kwargs)))
             return Obj(_kind="file", _args=list(args), _kwargs=dict(kwargs))
@@ -100,12 +117,36 @@ class EntryInterp(Interp):
                 return None
             if kind == "logger":
                 return None
+            if kind == "path":
+                if m == "mkdir":
+                    # Path.mkdir(parents=False, exist_ok=False): recorded like os.makedirs / os.mkdir
+                    parents = kwargs.get("parents", args[1] if len(args) > 1 else False)
+                    self.log.append(("os.makedirs" if parents else "os.mkdir", [o._p], {"exist_ok": kwargs.get("exist_ok", False)}))
+                    return None
+                if m == "open":
+                    self.log.append(("open", [o._p] + list(args), dict(kwargs)))
+                    return Obj(_kind="file", _args=[o._p] + list(args), _kwargs=dict(kwargs))
+                if m in ("is_dir", "exists"):
+                    self.log.append(("isdir", [o._p], {}))
+                    return self.world.get("isdir", False)
+                if m in ("joinpath",):
+                    return self._path(lift(lambda x, *ys: "/".join([x.rstrip("/")] + list(ys)), o._p, *args))
+                if m in ("__str__", "as_posix", "__fspath__"):
+                    return o._p
         if o is None and m in ("info", "debug", "warning", "error", "exception", "critical"):
             return None
         return super().method(o, m, args, kwargs)
 
     def attribute(self, e, env):
         o = self.ev(e.value, env)
+        if isinstance(o, Obj) and getattr(o, "_kind", None) == "path":
+            if e.attr in ("name", "stem", "suffix", "parent"):
+                import posixpath
+                fn = {"name": posixpath.basename, "stem": lambda x: posixpath.splitext(posixpath.basename(x))[0],
+                      "suffix": lambda x: posixpath.splitext(x)[1], "parent": posixpath.dirname}[e.attr]
+                v = lift(fn, o._p)
+                return self._path(v) if e.attr == "parent" else v
+            return ("method", o, e.attr)
         if isinstance(o, Obj) and getattr(o, "_kind", None) in ("file", "logger") or (
                 isinstance(o, Obj) and str(getattr(o, "_kind", "")).startswith("instance:")):
             if not hasattr(o, e.attr) or e.attr in ("read", "write", "run", "parse_args", "add_argument", "info", "error", "debug", "warning"):
@@ -141,6 +182,10 @@ class EntryInterp(Interp):
         if name in ("json.dump", "json.dumps"):
             self.log.append((name, list(args), dict(kwargs)))
             return ("json.dumps", args[0]) if name == "json.dumps" else None
+        if name in ("pathlib.Path", "pathlib.PurePath", "pathlib.PosixPath"):
+            if len(args) == 1:
+                return self._path(args[0]._p if isinstance(args[0], Obj) and getattr(args[0], "_kind", None) == "path" else args[0])
+            return self._path(lift(lambda *xs: "/".join(x.rstrip("/") if i < len(xs) - 1 else x for i, x in enumerate(xs)), *args))
         if name.startswith("argparse."):
             return Obj(_kind="instance:ArgumentParser")
         return super().external(name, args, kwargs)
